@@ -65,14 +65,25 @@ OPS += [
     ("n03", "", "", "{ user { name orders { label } } }"),
     ("n04", "", "", "{ user { id orders { sku } summary name } }"),
 ]
+# subgraph error propagation: pass-through (p..) and pass-through + RewriteSubgraphErrorPaths (e..) variants
+OPS += [
+    ("p01", "", "", "{ user { name orders { sku total label } summary } }"),
+    ("e01", "", "", "{ user { name orders { sku total label } summary } }"),
+    ("p03", "", "", "{ me { username reviews { body product { upc name price } } } }"),
+    ("e03", "", "", "{ me { username reviews { body product { upc name price } } } }"),
+    ("e05", "", "", "{ topProducts { upc name reviews { body author { id username realName } } } }"),
+]
+MINI = {"n01", "n02", "n03", "n04", "p01", "e01"}
+ERRMODE = {"p01": "pass", "e01": "rewrite", "p03": "pass", "e03": "rewrite", "e05": "rewrite"}
 
 
 def op_dict(o):
-    return {"id": o[0], "name": o[1], "vars": o[2], "query": o[3], "multi": o[0] in MULTI, "env": "mini" if o[0].startswith("n") else ""}
+    return {"id": o[0], "name": o[1], "vars": o[2], "query": o[3], "multi": o[0] in MULTI, "env": "mini" if o[0] in MINI else "",
+            "errmode": ERRMODE.get(o[0], "")}
 
-INVS = ["RepeatClean", "NoFabrication", "SameOperation", "Independent", "SkipJustified", "SkipHonoured", "ErrorReportedPerFetch", "DepsSettled",
+INVS = ["DeniedNotSent", "ErrPathsPass", "ErrPathsNames", "ErrPathsExact", "RepeatClean", "NoFabrication", "SameOperation", "Independent", "SkipJustified", "SkipHonoured", "ErrorReportedPerFetch", "DepsSettled",
         "ResponseWellFormed", "ErrorsNonEmpty", "Isolated"]
-EVENTS = {"ld.skipped", "ld.prepared", "ld.load", "ld.loaded", "ld.merging", "ld.merged", "req"}
+EVENTS = {"ld.skipped", "ld.prepared", "ld.load", "ld.loaded", "ld.merging", "ld.merged", "req", "deny"}
 
 
 # ------------------------------------------------------------------------------------------- plumbing
@@ -207,6 +218,10 @@ class PlanInfo:
 
     def normalise(self, res):
         """driver output (real fetch ids) -> index space"""
+        res["exchanges"] = res.get("exchanges") or []
+        res["events"] = res.get("events") or []
+        if res.get("repeat"):
+            res["repeat"]["exchanges"] = res["repeat"].get("exchanges") or []
         for x in res["exchanges"]:
             x["fetch"] = self.idx.get(x["fetch"], -1)
         for e in res["events"]:
@@ -215,10 +230,31 @@ class PlanInfo:
     def driver_case(self, c):
         """case in index space -> driver input (real fetch ids)"""
         return {"id": c["id"], "op": c["op"], "faults": {str(self.real[int(k)]): v for k, v in c["faults"].items()},
-                "order": [self.real[f] for f in c["order"]]}
+                "order": [self.real[f] for f in c["order"]], "then": c.get("then", "")}
+
+    def items_at(self, f):
+        """positions (response paths with list indices) of the objects fetch f's representations are rendered from, in
+        document order of the fault-free response"""
+        out = []
+
+        def walk(v, elems, pos):
+            if isinstance(v, list):
+                for i, c in enumerate(v):
+                    walk(c, elems, pos + (i,))
+                return
+            if not elems:
+                if isinstance(v, dict):
+                    out.append(pos)
+                return
+            if elems[0] == "@":
+                return walk(v, elems[1:], pos)
+            if isinstance(v, dict) and elems[0] in v:
+                walk(v[elems[0]], elems[1:], pos + (elems[0],))
+        walk(self.data0, [x for x in self.fetches[f]["path"].split(".") if x], ())
+        return out
 
     def shape_line(self):
-        return {"op": self.id, "n": self.n, "tree": self.tree,
+        return {"op": self.id, "n": self.n, "tree": self.tree, "partner": 1 if getattr(self, "partner", None) else 0,
                 "entity": [1 if (self.r0.get(f["id"]) or {}).get("is_entity") else 0 for f in self.fetches]}
 
     def sig(self, faults, res=None):
@@ -237,7 +273,47 @@ class PlanInfo:
         return "+".join(sorted("%s/%s" % (self.fetches[int(k)]["kind"], v) for k, v in faults.items()))
 
 
-def trace_of(pi, res):
+def tpath(p):
+    return [{"t": "i", "v": str(x)} if isinstance(x, int) and not isinstance(x, bool) else {"t": "s", "v": str(x)} for x in p]
+
+
+def err_records(pi, res, doc):
+    """one record per error carried by the (faulty) subgraph answers of this run, related to the client's errors"""
+    out = []
+    client = (doc.get("errors") or []) if isinstance(doc, dict) else []
+    for x in res["exchanges"]:
+        try:
+            body = json.loads(x["response"])
+        except ValueError:
+            continue
+        if not isinstance(body, dict) or not isinstance(body.get("errors"), list) or x["fetch"] < 0:
+            continue
+        f = pi.fetches[x["fetch"]]
+        items = pi.items_at(x["fetch"])
+        nreps = len(pi.reps0.get(x["fetch"], []))
+        for e in body["errors"]:
+            if not isinstance(e, dict):
+                continue
+            sub = e.get("path")
+            subhas = 1 if isinstance(sub, list) else 0
+            sub = list(sub) if subhas else []
+            got = next((c for c in client if isinstance(c, dict) and c.get("message") == e.get("message")), None)
+            ent, known, item, rest = 0, 0, [], []
+            if subhas and sub and isinstance(sub[0], str) and (sub[0] == "_entities" or (f.get("entries") and any(en["alias"] == sub[0] for en in f["entries"]))):
+                sub[0] = "_entities"  # the alias of a MultiEntityFetch entry is never shown
+                if len(sub) >= 2 and isinstance(sub[1], int):
+                    ent = 1
+                    rest = sub[2:]
+                    # representation i <-> i-th object at the fetch's response path (only when nothing was de-duplicated)
+                    if not f.get("entries") and len(items) == nreps and sub[1] < len(items):
+                        known, item = 1, list(items[sub[1]])
+            gp = got.get("path") if got else None
+            out.append({"f": x["fetch"] + 1, "found": 1 if got else 0, "subhas": subhas, "sub": tpath(sub), "haspath": 1 if isinstance(gp, list) else 0,
+                        "got": tpath(gp if isinstance(gp, list) else []), "ent": ent, "known": known, "item": tpath(item), "rest": tpath(rest)})
+    return out
+
+
+def trace_of(pi, res, pi2=None):
     """NDJSON lines (TLC trace) for one result of the driver."""
     faults = {int(k): v for k, v in res["case"]["faults"].items()}
     xs = {x["seq"]: x for x in res["exchanges"]}
@@ -254,6 +330,9 @@ def trace_of(pi, res):
               "fault": eff, "e0": pi.e0}]
     for e in sorted(res["events"], key=lambda e: e["seq"]):
         if e["p"] not in EVENTS:
+            continue
+        if e["p"] == "deny":
+            lines.append({"ev": "deny", "f": e["a"] + 1, "b": 0})
             continue
         if e["p"] == "req":
             x = xs.get(e["b"])
@@ -279,7 +358,7 @@ def trace_of(pi, res):
             lines.append({"ev": "req", "f": fid + 1, "b": 0, "ents": ents, "same": same})
         else:
             lines.append({"ev": e["p"], "f": e["a"] + 1, "b": e["b"]})
-    valid, nerr, x = 0, 0, {"t": "null"}
+    valid, nerr, x, doc = 0, 0, {"t": "null"}, None
     try:
         doc = json.loads(res["response"])
         if isinstance(doc, dict) and (doc.get("errors") is None or isinstance(doc.get("errors"), list)):
@@ -288,8 +367,9 @@ def trace_of(pi, res):
             x = tag(doc.get("data"))
     except ValueError:
         pass
+    mode = {"": 0, "pass": 1, "rewrite": 2}[ERRMODE.get(pi.id, "")]
     lines.append({"ev": "response", "f": 0, "b": 0, "arrived": 1 if res["arrived"] else 0, "valid": valid, "nerr": nerr,
-                  "hasdata": valid, "a": pi.a, "x": x})
+                  "hasdata": valid, "a": pi.a, "x": x, "mode": mode, "errs": err_records(pi, res, doc) if (mode and valid) else []})
     rp = res.get("repeat")
     if rp:
         valid, nerr, x = 0, 0, {"t": "null"}
@@ -302,9 +382,10 @@ def trace_of(pi, res):
         except ValueError:
             pass
         key = lambda e: (e["subgraph"], e["query"], e["variables"])
-        reqsame = 1 if sorted(map(key, rp["exchanges"])) == sorted(map(key, pi.plan["exchanges"])) else 0
+        p2 = pi2 or pi  # the second request may be another operation (sharing a subgraph request with the first)
+        reqsame = 1 if sorted(map(key, rp["exchanges"])) == sorted(map(key, p2.plan["exchanges"])) else 0
         lines.append({"ev": "repeat", "f": 0, "b": 0, "arrived": 1 if rp["arrived"] else 0, "valid": valid, "nerr": nerr,
-                      "reqsame": reqsame, "x": x})
+                      "reqsame": reqsame, "a": p2.a, "x": x})
     return lines
 
 
@@ -402,7 +483,8 @@ def replay(ctx, binary):
     case = rep["case"]["case"]
     op = rep["case"].get("operation") or op_dict(next(o for o in OPS if o[0] == case["op"]))
     op.setdefault("multi", op["id"] in MULTI)
-    op.setdefault("env", "mini" if op["id"].startswith("n") else "")
+    op.setdefault("env", "mini" if op["id"] in MINI else "")
+    op.setdefault("errmode", ERRMODE.get(op["id"], ""))
     ops_path = ctx.path("ops.json")
     with open(ops_path, "w") as f:
         json.dump([op], f)
@@ -416,7 +498,16 @@ def replay(ctx, binary):
     if res["panic"] or not res["arrived"]:
         ctx.violation(rep.get("key", "replay"), "panic / no response on replay: %s" % res["panic"][:300], {"case": case, "result": res})
         return
-    tr = trace_of(pi, res)
+    pi2 = None
+    if case.get("then"):
+        o2 = op_dict(next(o for o in OPS if o[0] == case["then"]))
+        with open(ops_path, "w") as f:
+            json.dump([op, o2], f)
+        ctx.run_bin(binary, ["-mode", "plan", "-in", ops_path, "-out", pp], timeout=300)
+        pi2 = PlanInfo(lib.read_ndjson(pp)[1])
+        res = run_driver(ctx, binary, ops_path, [case], "replay2", {pi.id: pi})[0]
+        res["case"] = case
+    tr = trace_of(pi, res, pi2)
     for cid, verdict, ev, off in validate_batch(ctx, 0, tr, ["replay"] * len(tr)):
         print("  %s at event #%d %s" % (verdict, off, json.dumps({k: v for k, v in ev.items() if k not in ("a", "x")})))
         fid = ev.get("f", 0) - 1
@@ -476,6 +567,13 @@ def run(ctx):
         plans[p["id"]] = PlanInfo(p)
     shapes_path = ctx.path("shapes.ndjson")
     order = [o["id"] for o in ops]
+    # partner = another operation on the same kind of gateway that shares a subgraph request (single-flight key) with this one
+    rk = lambda e: (e["subgraph"], e["query"], e["variables"])
+    opd = {o["id"]: o for o in ops}
+    for i in order:
+        mine = set(map(rk, plans[i].plan["exchanges"]))
+        plans[i].partner = next((j for j in order if j != i and all(opd[i][k] == opd[j][k] for k in ("env", "multi", "errmode"))
+                                 and opd[i]["query"] != opd[j]["query"] and mine & set(map(rk, plans[j].plan["exchanges"]))), None)
     lib.write_ndjson(shapes_path, [plans[i].shape_line() for i in order])
     distinct_shapes = {lib.sha([plans[i].tree, [f["deps"] for f in plans[i].fetches], [f["kind"] for f in plans[i].fetches]]) for i in order}
     ctx.log("%d operations, %d distinct plan shapes (tree, deps, fetch kinds)" % (len(order), len(distinct_shapes)))
@@ -490,7 +588,8 @@ def run(ctx):
     for c in gen:
         pi = plans[c["op"]]
         faults = {str(i): k for i, k in enumerate(c["fault"]) if k != "ok"}
-        cases.append({"op": c["op"], "faults": faults, "order": [f - 1 for f in c["order"]], "nf": len(faults), "all": len(faults) == pi.n})
+        cases.append({"op": c["op"], "faults": faults, "order": [f - 1 for f in c["order"]], "nf": len(faults), "all": len(faults) == pi.n,
+                      "then": pi.partner if c.get("second") == "other" else ""})
     small = [c for c in cases if c["nf"] <= 1 or c["all"]]
     big = [c for c in cases if not (c["nf"] <= 1 or c["all"])]
     rng.shuffle(big)
@@ -499,7 +598,7 @@ def run(ctx):
         # every (operation, fault assignment) at least once, the remaining completion orders sampled
         first, rest, seen = [], [], set()
         for c in small:
-            k = (c["op"], json.dumps(c["faults"], sort_keys=True))
+            k = (c["op"], json.dumps(c["faults"], sort_keys=True), c["then"])
             (rest if k in seen else first).append(c)
             seen.add(k)
         rng.shuffle(rest)
@@ -567,7 +666,7 @@ def run(ctx):
     for i in range(0, len(ok_results), batch_size):
         lines, owners = [], []
         for r in ok_results[i:i + batch_size]:
-            t = trace_of(plans[r["op"]], r)
+            t = trace_of(plans[r["op"]], r, plans.get(r["case"].get("then") or ""))
             lines += t
             owners += [r["id"]] * len(t)
         batches.append((lines, owners))
@@ -600,6 +699,7 @@ def run(ctx):
     validated = len(ok_results) - len(bad)
     # ---- binding demonstration: corrupted versions of a real, accepted trace must be rejected ----------------------
     demo = next((r for r in ok_results if r["id"] not in bad and plans[r["op"]].n >= 2 and len(r["case"]["faults"]) == 1
+                 and not r["case"].get("then")
                  and any(e["ev"] == "req" and len(e["ents"]) > 0 for e in trace_of(plans[r["op"]], r)[2:])), None)
     if demo is not None:
         base = trace_of(plans[demo["op"]], demo)
@@ -631,8 +731,8 @@ def run(ctx):
                 raise lib.Inconclusive("binding demonstration failed: %s was not rejected with %s (got %s)" % (what, want, sorted(got)))
         STUCK["n"] = stuck_before
         ctx.notes.append("binding demonstration: dropped event / fabricated representation / corrupted response value of trace %s rejected" % demo["id"])
-    distinct = {lib.sha([r["op"], r["case"]["faults"], r["case"]["order"]]) for r in ok_results}
-    nontrivial = {lib.sha([r["op"], r["case"]["faults"], r["case"]["order"]]) for r in ok_results if plans[r["op"]].n >= 2}
+    distinct = {lib.sha([r["op"], r["case"]["faults"], r["case"]["order"], r["case"].get("then")]) for r in ok_results}
+    nontrivial = {lib.sha([r["op"], r["case"]["faults"], r["case"]["order"], r["case"].get("then")]) for r in ok_results if plans[r["op"]].n >= 2}
     sample = ok_results[len(ok_results) // 2] if ok_results else None
     ctx.coverage.update({
         "traces_validated_against_impl": validated,
